@@ -84,17 +84,17 @@ let run_limiter (parts : string list) : string =
         | _ -> ()) h;
       let bad = ref None in
       List.iteri (fun ki k ->
-        if ki < 3 && !bad = None then begin
+        if ki < 4 && !bad = None then begin
           let times = List.filter_map (fun (e, d) -> match e, d with
             | EvAllow (tz, a, _), Some true when addr_eqb (mask_addr o a) k -> Some tz | _ -> None) (List.combine h ds) in
           let arr = Array.of_list times in
           let m = Array.length arr in
           if m > 0 then begin
             let last = arr.(m - 1) and first = arr.(0) in
-            let pick = List.sort_uniq compare [0; m / 4; m / 2; 3 * m / 4; m - 1] in
+            let pick = List.sort_uniq compare [0; m / 8; m / 4; 3 * m / 8; m / 2; 5 * m / 8; 3 * m / 4; 7 * m / 8; m - 1] in
             List.iter (fun i ->
-              if not (bound_ok o k arr.(i) last h) then bad := Some (c15_fmt_addr k);
-              if not (bound_ok o k first arr.(i) h) then bad := Some (c15_fmt_addr k)) pick
+              if not (bound_ok_ds o k arr.(i) last h ds) then bad := Some (c15_fmt_addr k);
+              if not (bound_ok_ds o k first arr.(i) h ds) then bad := Some (c15_fmt_addr k)) pick
           end
         end) !keys;
       match !bad with
